@@ -269,7 +269,7 @@ func main() {
 			"values are short strings; index order is checked on the index columns only",
 			"bounded to the request alphabet and depth reported in coverage",
 		},
-		QuickBudget: 80, ThoroughBudget: 800,
+		QuickBudget: 70, ThoroughBudget: 800,
 		Procs: 16,
 		Run: run, Replay: replay,
 	})
